@@ -730,6 +730,22 @@ def m_chunks(it, a, ty, callee):
     return LazyIter([Ptr(p.cell, p.path, (base + i, min(n.v, total - i))) for i in range(0, total, n.v)])
 
 
+def m_sort_plain(it, a, ty, callee):
+    """slice::sort / sort_unstable for integer elements (insertion sort, comparisons fork on symbolic values)"""
+    p = a[0]
+    seq = it.load(p)
+    m = re.search(r'<impl \[(.*)\]>::sort', callee, re.S)
+    ety = m.group(1) if m else 'usize'
+    out = []
+    for x in seq.fields:
+        pos = len(out)
+        while pos > 0 and ord_cmp(it, ety, x, out[pos - 1]) < 0:
+            pos -= 1
+        out.insert(pos, x)
+    it.store(p, Seq(out, 'slice') if p.win is not None else Seq(out, seq.kind))
+    return UNIT
+
+
 def m_chain(it, a, ty, callee):
     xs = drain(it, as_lazy(a[0]))
     second = a[1]
@@ -742,9 +758,27 @@ def m_chain(it, a, ty, callee):
 def m_vec_truncate(it, a, ty, callee):
     p, n = a
     v = it.load(p)
-    if not n.conc:
-        raise Inconclusive('Vec::truncate(symbolic)')
-    it.store(p, Seq(v.fields[:n.v], v.kind))
+    if n.conc:
+        k = min(n.v, len(v.fields))
+    else:
+        # fork on the (few) feasible lengths
+        L = len(v.fields)
+        conds = [n.z() == z3.BitVecVal(j, n.w) for j in range(L)] + [z3.UGE(n.z(), z3.BitVecVal(L, n.w))]
+        k = it.choose(L + 1, conds)
+    it.store(p, Seq(v.fields[:k], v.kind))
+    return UNIT
+
+
+def m_slice_swap(it, a, ty, callee):
+    p, i, j = a
+    v = it.load(p)
+    n = len(v.fields)
+    it.require(b_and(it.binop('Lt', i, usize(n)), it.binop('Lt', j, usize(n))), 'panic', 'slice::swap index out of bounds')
+    if not (i.conc and j.conc):
+        raise Inconclusive('slice::swap with symbolic indices')
+    f = list(v.fields)
+    f[i.v], f[j.v] = f[j.v], f[i.v]
+    it.store(p, Seq(f, 'slice' if p.win is not None else v.kind))
     return UNIT
 
 
@@ -782,9 +816,11 @@ def install(it):
     A(r'<std::vec::Vec<.*> as std::convert::From<std::collections::VecDeque<.*>>>::from', lambda it, a, ty, c: a[0])
     A(r'std::(vec::Vec|collections::VecDeque)::<.*>::clear', m_vec_clear)
     A(r'(?:core|std)::slice::<impl \[.*\]>::reverse', m_slice_reverse)
+    A(r'(?:core|std)::slice::<impl \[.*\]>::swap', m_slice_swap)
     A(r'std::(vec::Vec|collections::VecDeque)::<.*>::retain(_mut)?::<.*>', m_retain)
     A(r'std::(vec::Vec|collections::VecDeque)::<.*>::truncate', m_vec_truncate)
     A(r'(?:core|std)::slice::<impl \[.*\]>::sort_by_key::<.*>', m_sort_by_key)
+    A(r'(?:core|std)::slice::<impl \[(?:u|i)(?:8|16|32|64|128|size)\]>::sort(_unstable)?', m_sort_plain)
     A(r'(?:core|std)::slice::<impl \[.*\]>::chunks', m_chunks)
     A(r"(?:core|std)::slice::<impl \[.*\]>::binary_search_by::<.*>", m_binary_search_by)
     A(r'(?:core|std)::slice::<impl \[.*\]>::sort(_unstable)?_by::<.*>', m_sort_by)
